@@ -253,7 +253,31 @@ func gen(repo string) (map[string]string, error) {
 	allOwned := strings.Contains(gtxt, "if len(unallocatedIPRange) == 0 {") && strings.Contains(gtxt, "return allocatedSubnets, nil") &&
 		strings.Contains(gtxt, "ipranges = unallocatedIPRange")
 	fmt.Fprintf(&b, "/-- getSubnet: all ranges owned => the intersection is the answer; otherwise only the range lists without an owned\n    address are looked up in NodeSubnetsByIPRanges -/\ndef getSubnetAsksOnlyUnownedRanges : Bool := %s\n", fg.LeanBool(allOwned))
-	noRange := strings.Contains(gtxt, "return ipInfos[0].NodeSubnets, nil")
+	// the no-ranges branch: `if len(ipranges) == 0 { if len(ipInfos) > 0 { … return X.NodeSubnets, nil } }` where X is
+	// ipInfos[0] or a local that was assigned ipInfos[0] (normalised: aliases of ipInfos[0] are substituted)
+	noRange := false
+	for _, st := range gs.Body.List {
+		is, ok := st.(*ast.IfStmt)
+		if !ok || norm(fl.Src(is.Cond)) != "len(ipranges) == 0" {
+			continue
+		}
+		for _, inner := range ifsIn(is.Body) {
+			if norm(fl.Src(inner.Cond)) != "len(ipInfos) > 0" {
+				continue
+			}
+			alias := map[string]bool{"ipInfos[0]": true}
+			for _, bs := range inner.Body.List {
+				if as, ok := bs.(*ast.AssignStmt); ok && len(as.Lhs) == 1 && len(as.Rhs) == 1 && alias[norm(fl.Src(as.Rhs[0]))] {
+					alias[norm(fl.Src(as.Lhs[0]))] = true
+				}
+				if rs, ok := bs.(*ast.ReturnStmt); ok && len(rs.Results) == 2 && norm(fl.Src(rs.Results[1])) == "nil" {
+					if se, ok := rs.Results[0].(*ast.SelectorExpr); ok && se.Sel.Name == "NodeSubnets" && alias[norm(fl.Src(se.X))] {
+						noRange = true
+					}
+				}
+			}
+		}
+	}
 	fmt.Fprintf(&b, "/-- getSubnet without requested ranges: the node subnets of `ipInfos[0]` (any owned address) -/\ndef getSubnetNoRangeUsesFirstOwned : Bool := %s\n\n", fg.LeanBool(noRange))
 
 	// ---- AllocateInSubnetsAndIPRange
